@@ -7,7 +7,7 @@ Streams (see harness/src/bin/c19.rs):
   dc  ExtractedDoc::from_attrs            vr  VersionRange::parse
   md  metadata deserialise+validate+emit  ex  whole expansions, three styles
   bl  real ApiEndpoint builder methods
-  pe / pd / pl / pj / pr  the compiled programs (registered records, document
+  pe / pd / pt / pl / pj / pr  the compiled programs (registered records, document
       entries, lookup metadata, whole documents, routing tables)
 -/
 import DropshotModel.Proto
@@ -594,6 +594,33 @@ def handle (line : String) : String :=
       out id (m.map (fun x => x.splitOn " ") == looks) (b2s specB)
         s!"pl-{if should then "hit" else "miss"}-{if d.unpublished then "unpub" else "pub"}-{if v.isNone then "nover" else versTag d.versions}"
         "-" (" | ".intercalate m)
+    | _, _ => bad id "parse"
+  | "pt" :: id :: ver :: rest =>
+    -- the document's top-level tag list, against the whole table of declarations:
+    -- exactly the tags written on the declarations that are documented at this version
+    match (splitBars rest).mapM decodeDecl, SemVer.parse ver with
+    | some ds, some v =>
+      let insertS (x : String) (l : List String) : List String :=
+        let rec go : List String → List String
+          | [] => [x]
+          | y :: ys => if x < y then x :: y :: ys else if x == y then y :: ys else y :: go ys
+        go l
+      let norm (l : List String) : String :=
+        let l := l.foldl (fun acc x => insertS x acc) []
+        if l.isEmpty then "-" else ",".intercalate l
+      let modelOf (s : Style) : String :=
+        norm (ds.flatMap fun d => match expand s d with
+          | .error _ => []
+          | .ok e => if documentedAt envOf e v then (docEntry e).tags.map encodeStr else [])
+      let m := [modelOf .function, modelOf .traitImpl, modelOf .traitStub]
+      let spec := norm (ds.flatMap fun d =>
+        let should := !d.unpublished && (match declRange d with | some r => memB (some v) r | none => false)
+        if should then d.tags.map encodeStr else [])
+      let got := splitBars impl
+      let specB := match got with
+        | [[f], [i], [s]] => f == spec && i == spec && s == spec
+        | _ => false
+      out id (m.map (fun x => [x]) == got) (b2s specB) s!"pt-tags-{(spec.splitOn ",").length}" "-" (" | ".intercalate m)
     | _, _ => bad id "parse"
   | ["pj", id, _ver] =>
     -- C19.styles_agree: the three documents are equal
